@@ -39,6 +39,7 @@ type RuleInfo struct {
 }
 
 type Sink struct {
+	funcs  map[string]bool // names of the functions of the analysed tree (for known findings of renamed functions)
 	prop   string
 	config string
 	obs    []Oblig
@@ -144,18 +145,59 @@ func loadKnown(verifDir string) (*KnownFile, error) {
 }
 
 func (kf *KnownFile) match(prop, key, alt string) *Finding {
-	for i := range kf.Findings {
-		f := &kf.Findings[i]
-		if f.Key != key && !(f.Alt != "" && f.Alt == alt) {
-			continue
-		}
+	return kf.matchIn(prop, key, alt, nil)
+}
+
+// matchIn: as match; with the function names of the analysed tree, a finding whose function no longer exists under its
+// recorded name (renamed, or its code moved into a new helper) still matches a violation of the same rule whose key
+// differs only in components that name functions — vanished ones on the finding's side, new ones on the violation's.
+func (kf *KnownFile) matchIn(prop, key, alt string, funcs map[string]bool) *Finding {
+	applies := func(f *Finding) bool {
 		if len(f.Properties) == 0 {
-			return f
+			return true
 		}
 		for _, p := range f.Properties {
 			if p == prop {
-				return f
+				return true
 			}
+		}
+		return false
+	}
+	for i := range kf.Findings {
+		f := &kf.Findings[i]
+		if (f.Key == key || (f.Alt != "" && f.Alt == alt)) && applies(f) {
+			return f
+		}
+	}
+	if funcs == nil {
+		return nil
+	}
+	skeleton := func(k string, drop func(comp string) bool) (string, bool) {
+		parts := strings.Split(k, ":")
+		var out []string
+		dropped := false
+		for _, c := range parts {
+			base := c
+			if i := strings.Index(base, "$"); i > 0 { // closures are named after their function
+				base = base[:i]
+			}
+			if drop(base) {
+				dropped = true
+				continue
+			}
+			out = append(out, c)
+		}
+		return strings.Join(out, ":"), dropped
+	}
+	vk, vdropped := skeleton(key, func(c string) bool { return funcs[c] && !frozenFuncs[c] })
+	for i := range kf.Findings {
+		f := &kf.Findings[i]
+		if !applies(f) {
+			continue
+		}
+		fk, fdropped := skeleton(f.Key, func(c string) bool { return frozenFuncs[c] && !funcs[c] })
+		if fdropped && vdropped && fk == vk {
+			return f
 		}
 	}
 	return nil
@@ -236,7 +278,7 @@ func conclude(verifDir, root, tier string, seed int64, s *Sink, st runStats, spe
 			}
 		default:
 			if o.Status == stViolated {
-				if f := kf.match(s.prop, o.Key, o.Alt); f != nil {
+				if f := kf.matchIn(s.prop, o.Key, o.Alt, s.funcs); f != nil {
 					known++
 					knownLines = append(knownLines, fmt.Sprintf("KNOWN-FINDING: property=%s %s [%s at %s]", s.prop, f.What, o.Key, o.Pos))
 					samples = append(samples, map[string]string{"rule": o.Rule, "key": o.Key, "pos": o.Pos, "status": "violated (known finding)", "detail": o.Detail})
